@@ -148,11 +148,11 @@ def audit(prop_modules):
         # output: "'name' depends on axioms: [a, b]" (may wrap) or "'name' does not depend on any axioms"
         flat = re.sub(r'\n\s+', ' ', out)
         for line in flat.split('\n'):
-            m = re.search(r"'([^']+)' depends on axioms: \[(.*?)\]", line)
+            m = re.search(r"'(.+)' depends on axioms: \[(.*?)\]", line)
             if m:
                 axioms[m.group(1)] = [a.strip() for a in m.group(2).split(',') if a.strip()]
                 continue
-            m = re.search(r"'([^']+)' does not depend on any axioms", line)
+            m = re.search(r"'(.+)' does not depend on any axioms", line)
             if m:
                 axioms[m.group(1)] = []
         for t in thms:
